@@ -209,6 +209,44 @@ pub fn execute(spec: &RunSpec, monitor: &mut dyn Monitor, keep_log: bool) -> Run
     let tail_steps = tail_start.map(|t| world.steps - t).unwrap_or(0);
     violations.extend(monitor.at_end(&world, &client, &end));
 
+    // the answers to the result requests issued mid-run: each must be the process's result, and at a
+    // completed (quiescent) end every request for a process that has a result must have been answered
+    let mut observer_probes: BTreeMap<String, u64> = BTreeMap::new();
+    if !world.dead {
+        client.drain_probes(&mut world);
+        observer_probes.insert("observer_requests_mid_run".into(), client.observer_requests);
+        observer_probes.insert("result_requests_answered_mid_run".into(), client.probe_answers.len() as u64);
+        let program = world.env.get_program().clone();
+        let find = |world: &World, pid: usize| -> Option<usize> { (0..world.workers.len()).find(|wi| world.workers[*wi].verif_executor().get_process(pid).is_some()) };
+        for (pid, ans) in &client.probe_answers {
+            let Some(wi) = find(&world, *pid) else { continue };
+            let ex = world.workers[wi].verif_executor();
+            let Some(fin) = ex.get_process(*pid).and_then(|p| p.result.as_ref()) else {
+                violations.push(Violation::new("ANY", "result-request", "answered-for-unfinished-process", format!("a result request for process {} was answered although the process has no result at the end", world.pid_names.get(pid).cloned().unwrap_or_default()), world.steps));
+                continue;
+            };
+            let mut n1 = Names { pids: world.pid_names.clone(), fn_ids: true, ..Default::default() };
+            let mut n2 = Names { pids: world.pid_names.clone(), fn_ids: true, ..Default::default() };
+            let want = canon_result(fin, &BinSrc::Exec(ex), &program, &mut n1);
+            let got = match ans {
+                Ok((v, heap)) => crate::canon::canon(v, &BinSrc::Extracted(heap), &program, &mut n2),
+                Err(e) => format!("ERR({:?})", e),
+            };
+            if want != got {
+                violations.push(Violation::new("ANY", "result-request", "differs-from-process-result", format!("a result request issued while process {} was running was answered {got}; the process's result is {want}", world.pid_names.get(pid).cloned().unwrap_or_default()), world.steps));
+            }
+        }
+        if end == EndState::Completed {
+            for (_, pid) in &client.result_probes {
+                if let Some(wi) = find(&world, *pid)
+                    && world.workers[wi].verif_executor().get_process(*pid).map(|p| p.result.is_some()).unwrap_or(false)
+                {
+                    violations.push(Violation::new("ANY", "result-request", "never-answered", format!("process {} has finished and the system is quiescent, but a result request issued while it was running was never answered", world.pid_names.get(pid).cloned().unwrap_or_default()), world.steps));
+                }
+            }
+        }
+    }
+
     // canonical per-process results
     let mut procs = BTreeMap::new();
     if !world.dead {
@@ -255,7 +293,13 @@ pub fn execute(spec: &RunSpec, monitor: &mut dyn Monitor, keep_log: bool) -> Run
         tail_from: tail_from.or(spec.tail_from),
         sim_ms: world.tau - tau0,
         counts,
-        probes: monitor.probes(),
+        probes: {
+            let mut p = monitor.probes();
+            for (k, v) in observer_probes {
+                *p.entry(k).or_insert(0) += v;
+            }
+            p
+        },
         msgs: sh.msgs.len() as u64,
         log: sh.log.clone(),
         failure,
@@ -296,6 +340,16 @@ pub fn apply(world: &mut World, client: &mut Client, d: &Decision) -> StepOutcom
         Decision::J { back } => {
             world.jump_back(*back);
             StepOutcome { actor: usize::MAX, did_work: true, ..Default::default() }
+        }
+        Decision::N { k } => {
+            let r = std::panic::catch_unwind(std::panic::AssertUnwindSafe(|| client.inject_observer(world, *k)));
+            match r {
+                Ok(()) => StepOutcome { actor: 0, did_work: true, ..Default::default() },
+                Err(p) => {
+                    world.dead = true;
+                    StepOutcome { actor: 0, failure: Some(format!("observer request panicked: {}", crate::world::panic_msg(&p))), panicked: true, ..Default::default() }
+                }
+            }
         }
     }
 }
